@@ -61,12 +61,18 @@ out['base_chain'] = [issubclass(exceptions.AMQPSoftError, exceptions.AMQPError),
                      not issubclass(exceptions.AMQPSoftError, exceptions.AMQPHardError),
                      not issubclass(exceptions.AMQPHardError, exceptions.AMQPSoftError)]
 tree = ast.parse(open(root + '/pamqp/exceptions.py').read())
-amap = {}
+amap = None
 for node in tree.body:
     if isinstance(node, ast.Assign) and getattr(node.targets[0], 'id', '') == 'CLASS_MAPPING':
-        for k, v in zip(node.value.keys, node.value.values):
-            amap[str(ast.literal_eval(k))] = ast.unparse(v)
-out['ast_mapping'] = amap
+        if isinstance(node.value, ast.Dict):
+            amap = {}
+            for k, v in zip(node.value.keys, node.value.values):
+                try:
+                    amap[str(ast.literal_eval(k))] = ast.unparse(v)
+                except Exception:
+                    amap = None
+                    break
+out['ast_mapping'] = amap      # None: CLASS_MAPPING is not a plain literal (AST view unavailable)
 print(json.dumps(out))
 '''
 
@@ -112,9 +118,11 @@ def kernels(tier, seed):
     pre.append(_fun('cls_first', {k: enc(v[0]['cls']) for k, v in code['classes'].items()}))
     pre.append(_fun('map_cls', {k: enc(v['cls']) for k, v in code['mapping'].items()}))
     queries.append(('mapped_class_is_defined_class', '(assert (not (= (cls_first c) (map_cls c))))', ['c']))
-    pre.append(_fun('ast_map', code['ast_mapping']))
-    pre.append(_fun('map_cls_raw', {k: v['cls'] for k, v in code['mapping'].items()}))
-    queries.append(('ast_mapping_agrees', '(assert (not (= (ast_map c) (map_cls_raw c))))', ['c']))
+    ast_unavailable = code['ast_mapping'] is None
+    if not ast_unavailable:
+        pre.append(_fun('ast_map', code['ast_mapping']))
+        pre.append(_fun('map_cls_raw', {k: v['cls'] for k, v in code['mapping'].items()}))
+        queries.append(('ast_mapping_agrees', '(assert (not (= (ast_map c) (map_cls_raw c))))', ['c']))
     # constants: index j over the constant list
     names = sorted(spec.CONSTANTS)
     pre.append(_fun('const_code', {str(j): code['constants'].get(n, '<missing>') for j, n in enumerate(names)}))
@@ -138,6 +146,10 @@ def kernels(tier, seed):
             elif r['status'] != 'unsat':
                 kr['detail'] = r['raw'][:300]
             results.append(kr)
+    if ast_unavailable:
+        results.append({'name': 'ast_mapping_agrees', 'status': 'unknown', 'solver': 'ast', 'queries': 0,
+                        'solver_time_s': 0, 'detail': 'CLASS_MAPPING is not a dict literal: the AST view is '
+                        'unavailable (the imported mapping is still compared)'})
     return results
 
 
@@ -160,6 +172,8 @@ def body(code, query):
         b = got['mapping'].get(k, {}).get('cls')
         return a == b
     if query == 'ast_mapping_agrees':
+        if got['ast_mapping'] is None:
+            return True
         return got['ast_mapping'].get(k) == got['mapping'].get(k, {}).get('cls')
     f = query[len('mapping_'):]
     m = got['mapping'].get(k)
